@@ -139,4 +139,18 @@ MUTANTS = {
         "ptr_gets_flush": [("_protocol/outgoing.py", "        if record.unique is True and self.multicast:", "        if self.multicast:")],
         # multicast id forced to 0 in packets(): equivalent here, every multicast DNSOutgoing the stack builds has id 0 anyway
     },
+    "C12": {
+        "aggregation_600": [("_core.py", "_AGGREGATION_DELAY = 500  # ms", "_AGGREGATION_DELAY = 700  # ms")],
+        "protected_extra_delay_900": [("_core.py", "self.out_delay_queue = MulticastOutgoingQueue(self, _ONE_SECOND, _PROTECTED_AGGREGATION_DELAY)", "self.out_delay_queue = MulticastOutgoingQueue(self, 900, _PROTECTED_AGGREGATION_DELAY)")],
+        "last_second_le": [("_handlers/query_handler.py", "self._now - maybe_entry.created < _ONE_SECOND)", "self._now - maybe_entry.created < 500)")],
+        "tc_hold_not_restarted": [("_listener.py", "        self._cancel_any_timers_for_addr(addr)\n        self._timers[addr] = loop.call_at(", "        if addr in self._timers:\n            return\n        self._timers[addr] = loop.call_at(")],
+        "tc_delay_short": [("_listener.py", "_TC_DELAY_RANDOM_INTERVAL = (400, 500)", "_TC_DELAY_RANDOM_INTERVAL = (100, 200)")],
+        "jitter_too_small": [("_handlers/answers.py", "MULTICAST_DELAY_RANDOM_INTERVAL = (20, 120)", "MULTICAST_DELAY_RANDOM_INTERVAL = (0, 10)")],
+        "single_ptr_immediate": [("_handlers/query_handler.py", "_RESPOND_IMMEDIATE_TYPES = {_TYPE_NSEC, _TYPE_SRV, *_ADDRESS_RECORD_TYPES}", "_RESPOND_IMMEDIATE_TYPES = {_TYPE_NSEC, _TYPE_SRV, _TYPE_PTR, *_ADDRESS_RECORD_TYPES}")],
+        "queue_never_flushes_second_group": [("_handlers/multicast_outgoing_queue.py", "        if len(self.queue):\n            # If there are still groups in the queue that are not ready to send\n            # be sure we schedule them to go out later\n            loop.call_at(loop.time() + millis_to_seconds(self.queue[0].send_after - now), self.async_ready)", "        if False:\n            pass")],
+        "tc_known_answers_first_packet_only": [("_handlers/query_handler.py", "            else:\n                answers.extend(msg.answers())", "            elif msg is msgs[0]:\n                answers.extend(msg.answers())")],
+        "d10_reverted": [("_handlers/query_handler.py", "        now = current_time_millis()\n        if question_answers.mcast_aggregate:", "        now = first_packet.now\n        if question_answers.mcast_aggregate:")],
+        # not listed: async_ready without _remove_answers_from_queue re-sends an answer that a later, already queued
+        # group also holds; each copy still lies in the window of its own query, which is all C12 states
+    },
 }
